@@ -97,14 +97,22 @@ Section WithOracles.
     match fuel with
     | O => Raise OutOfFuel
     | S n =>
-        match find_tclass e cn, v with
-        | Some c, PStruct _ a =>
-            let inh' := special (t_mapper c) ++ inh in
-            (* chained and function mappers: outside the model *)
-            _ <- (if mapper_simple (t_mapper c) then Ok tt else Raise Unmodelled) ;;
-            r <- ser_attrs (ser_val (ser_regular n inh') (ser_regular n [])) inh c a ;;
-            Ok (dict_of r)
-        | _, _ => Raise Unmodelled
+        match v with
+        | PStruct rn a =>
+            (* serialize_val: an instance of a SUBCLASS of the declared class (a differently named class of
+               the environment) is serialized as its own class, with that class's aggregated mapper only *)
+            let '(cn, inh) := if pystr_eqb rn cn then (cn, inh)
+                              else match find_tclass e rn with Some _ => (rn, []) | None => (cn, inh) end in
+            match find_tclass e cn with
+            | Some c =>
+                let inh' := special (t_mapper c) ++ inh in
+                (* chained and function mappers: outside the model *)
+                _ <- (if mapper_simple (t_mapper c) then Ok tt else Raise Unmodelled) ;;
+                r <- ser_attrs (ser_val (ser_regular n inh') (ser_regular n [])) inh c a ;;
+                Ok (dict_of r)
+            | None => Raise Unmodelled
+            end
+        | _ => Raise Unmodelled
         end
     end.
 
@@ -124,8 +132,9 @@ Section WithOracles.
     | Some c, PStruct _ a =>
         match (if compact then compact_applies c else None) with
         | Some fd =>
-            let inh' := special (t_mapper c) in
-            ser_val (ser_regular (pred fuel) inh') (ser_regular (pred fuel) []) (f_ty fd) (getattr_m c a (f_name fd))
+            (* the bare value is produced by serialize_val WITHOUT the class's mapper: an outer
+               TO_CAMELCASE / TO_LOWERCASE does not reach the nested documents in the compact form *)
+            ser_val (ser_regular (pred fuel) []) (ser_regular (pred fuel) []) (f_ty fd) (getattr_m c a (f_name fd))
         | None => ser_regular fuel [] cn v
         end
     | _, _ => Raise Unmodelled
@@ -153,7 +162,14 @@ Section WithOracles.
         | PList l =>
             match item with
             | TLeaf (LSer _ true) => Ok v          (* Array.serialize: items that are Numbers are returned as they are *)
-            | _ => r <- mapM (fast_val fc item) l ;; Ok (PList r)
+            | _ =>
+                (* Array.serialize reads items._ty.serialize before iterating: AttributeError without the mix-in,
+                   even for an empty list (reachable through Optional[Array[C]], which create_serializer does not check) *)
+                _ <- match item with
+                     | TRef c => if class_is_fast c then Ok tt else Raise AttributeError
+                     | _ => Ok tt
+                     end ;;
+                r <- mapM (fast_val fc item) l ;; Ok (PList r)
             end
         | _ => Raise Unmodelled
         end
